@@ -129,8 +129,13 @@ def o1_thread_targets(chk: Check) -> None:
         visit(fn.node.body, False)
         for s in uncovered:
             text = norm(s) if not isinstance(s, (ast.If, ast.While, ast.For, ast.With)) else norm(s).split(":")[0]
+            # key: statement kind + the callees that may raise (local variable names are incidental)
+            hdr_ = s.iter if isinstance(s, ast.For) else (s.test if isinstance(s, (ast.If, ast.While)) else s)
+            callees = [dotted(c.func) or last_attr(c) or "?" for c in (calls(hdr_, into_nested=False) if not isinstance(s, ast.With) else [i.context_expr for i in s.items if isinstance(i.context_expr, ast.Call)]) if last_attr(c) not in TOTAL_CALLS]
+            kind_ = {ast.For: "for .. in ", ast.If: "if ", ast.While: "while ", ast.With: "with "}.get(type(s), "")
+            key_ = f"{kind_}{', '.join(f'{c}(...)' for c in callees)}" if callees else text[:120]
             chk.violation(
-                "C05.O1", fn, f"uncovered: {text[:120]}",
+                "C05.O1", fn, f"uncovered: {key_}",
                 "this statement can raise in the thread and nothing catches it: the thread dies silently, the phase ends "
                 "as 'nothing to test' / without the error and the exit code stays 0",
                 fn.loc(s),
@@ -277,7 +282,12 @@ def o2_run_test_ladder(chk: Check) -> None:
             chk.ok("C05.O2", fn, "only total statements between ScenarioStarted and the ladder", f"{idx0 - started_idx - 1} statement(s)", fn.loc(t))
 
     # (c) collected errors are emitted on every normal path after the try (except the interrupt return)
-    err_loops = [n for n in g.live() if n.kind == "for" and "errors" in names_in(n.ast.iter)  # type: ignore[attr-defined]
+    # the list handed to the test function as `errors=` (that is where cached_test_func appends)
+    err_vars = {kwarg(c, "errors").id for c in body_calls(fn) if isinstance(kwarg(c, "errors"), ast.Name)}  # type: ignore[union-attr]
+    if not err_vars:
+        chk.undecided("C05.O2", fn, "emission of collected `errors`", "no call passes an `errors=` list to the test function", fn.loc())
+        err_vars = {"errors"}
+    err_loops = [n for n in g.live() if n.kind == "for" and err_vars & names_in(n.ast.iter)  # type: ignore[attr-defined]
                  and any(isinstance(y, ast.Yield) for s in n.ast.body for y in walk_local(s))]  # type: ignore[attr-defined]
     unexpected = [h for h in t.handlers if "UnexpectedError" in [c.rsplit(".", 1)[-1] for c in handler_classes(h)]]
     if not err_loops:
@@ -430,21 +440,29 @@ def o3_failure_recording(chk: Check) -> None:
 def _status_fold(chk: Check, fn: FuncInfo, event_cls: str) -> None:
     """`status = event.status` only under the max-guard; NonFatalError => ERROR; status flows into the closing events."""
     g = cfg_of(fn)
-    assigns = [s for s, v in assignments_to(fn.node, "status") if v is not None and unparse(v) == "event.status"]
+    # the phase-status variable is the one that the closing PhaseFinished event reports
+    status_vars = {kwarg(c, "status").id for c in body_calls(fn) if last_attr(c) == "PhaseFinished" and isinstance(kwarg(c, "status"), ast.Name)}  # type: ignore[union-attr]
     construct = "status = event.status under max-guard"
+    if len(status_vars) != 1:
+        chk.undecided("C05.O4", fn, construct, f"phase status variable not recognised (PhaseFinished(status=...) names {sorted(status_vars)})", fn.loc())
+        return
+    status = next(iter(status_vars))
+    folds = [(n, b) for n, b in pfind("$s = $E.status", fn.node) if name_of(b, "s") == status]
+    assigns = [n for n, _b in folds]
+    ev_status = {unparse(b["E"]) + ".status" for _n, b in folds}
     if not assigns:
         chk.violation("C05.O4", fn, construct, f"the status of {event_cls} events is never folded into the phase status", fn.loc())
     for s in assigns:
         # find dominating test containing a comparison between status and event.status
         nodes = g.nodes_of(s)
         found = None
-        for tid, expr in guard_tests(g, lambda e: "event.status" in unparse(e, 600)):
+        for tid, expr in guard_tests(g, lambda e: any(x in unparse(e, 600) for x in ev_status)):
             if all(g.dominated_by_edge(n, tid, "true") for n in nodes):
                 for c in ast.walk(expr):
                     if isinstance(c, ast.Compare) and len(c.ops) == 1 and isinstance(c.ops[0], (ast.Lt, ast.Gt, ast.LtE, ast.GtE)):
                         l, r = unparse(c.left), unparse(c.comparators[0])
-                        if {l, r} == {"status", "event.status"}:
-                            up = (l == "status" and isinstance(c.ops[0], (ast.Lt, ast.LtE))) or (l == "event.status" and isinstance(c.ops[0], (ast.Gt, ast.GtE)))
+                        if status in (l, r) and ({l, r} - {status}) <= ev_status and l != r:
+                            up = (l == status and isinstance(c.ops[0], (ast.Lt, ast.LtE))) or (l in ev_status and isinstance(c.ops[0], (ast.Gt, ast.GtE)))
                             found = up
         if found is True:
             chk.ok("C05.O4", fn, construct, "", fn.loc(s))
@@ -452,7 +470,7 @@ def _status_fold(chk: Check, fn: FuncInfo, event_cls: str) -> None:
             chk.violation("C05.O4", fn, construct, "the guard lets a BETTER status overwrite a worse one: a failure followed by a success ends as success", fn.loc(s))
         else:
             # unguarded overwrite: last event wins
-            guarded = any(all(g.dominated_by_edge(n, tid, "true") for n in nodes) for tid, e in guard_tests(g, lambda e: "status" in names_in(e)))
+            guarded = any(all(g.dominated_by_edge(n, tid, "true") for n in nodes) for tid, e in guard_tests(g, lambda e: status in names_in(e)))
             if not guarded:
                 chk.violation("C05.O4", fn, construct, "status is overwritten by every event: the last scenario decides the phase status", fn.loc(s))
             else:
@@ -461,7 +479,7 @@ def _status_fold(chk: Check, fn: FuncInfo, event_cls: str) -> None:
     ok = False
     for n in walk_body(fn.node):
         if isinstance(n, ast.If) and "NonFatalError" in unparse(n.test, 300) and dotted(getattr(n.test, "func", None)) == "isinstance":
-            if any(isinstance(s, ast.Assign) and enum_member(s.value, "Status") == "ERROR" and any(isinstance(t, ast.Name) and t.id == "status" for t in s.targets) for s in n.body):
+            if any(isinstance(s, ast.Assign) and enum_member(s.value, "Status") == "ERROR" and any(isinstance(t, ast.Name) and t.id == status for t in s.targets) for s in n.body):
                 ok = True
     chk.decide(True if ok else False, "C05.O4", fn, "NonFatalError => status = ERROR", "a NonFatalError event does not make the phase ERROR: an error-only run reports the phase as skipped/success", fn.loc())
     # closing events take `status`
@@ -470,7 +488,7 @@ def _status_fold(chk: Check, fn: FuncInfo, event_cls: str) -> None:
             v = kwarg(c, "status")
             m = enum_member(v, "Status")
             construct = f"{last_attr(c)}(status=...)"
-            if isinstance(v, ast.Name) and v.id == "status":
+            if isinstance(v, ast.Name) and v.id == status:
                 chk.ok("C05.O4", fn, construct, "", fn.loc(c))
             elif m in ("ERROR", "FAILURE", "INTERRUPTED"):
                 chk.ok("C05.O4", fn, construct, f"literal {m}", fn.loc(c))
@@ -498,11 +516,20 @@ def o4_status_folding(chk: Check) -> None:
     chk.ok("C05.O4", loop, "state machine run covered by except Exception", "", loop.loc(run_calls[0]))
     # SuiteFinished in finally with status=suite_status
     fin_calls = [c for s in t.finalbody for c in calls(s) if last_attr(c) == "SuiteFinished"]
+    suite_status: str | None = None
     if not fin_calls:
         chk.violation("C05.O4", loop, "SuiteFinished in finally", "the suite is not closed on every way out of the run", loop.loc(t))
     else:
         v = kwarg(fin_calls[0], "status")
-        chk.decide(isinstance(v, ast.Name) and v.id == "suite_status", "C05.O4", loop, "SuiteFinished in finally", f"closing status is {unparse(v)}", loop.loc(fin_calls[0]))
+        if isinstance(v, ast.Name):
+            suite_status = v.id
+            chk.ok("C05.O4", loop, "SuiteFinished in finally", f"closing status is the variable `{suite_status}`", loop.loc(fin_calls[0]))
+        elif enum_member(v, "Status") in ("SUCCESS", "SKIP"):
+            chk.violation("C05.O4", loop, "SuiteFinished in finally", f"closing status is always {unparse(v)}", loop.loc(fin_calls[0]))
+        else:
+            chk.undecided("C05.O4", loop, "SuiteFinished in finally", f"closing status is {unparse(v)}", loop.loc(fin_calls[0]))
+    if suite_status is None:
+        return
     classify = classify_enum("Status")
     # copies of the finally block on the non-exceptional ways out (an exception raised *inside* a handler is a
     # second-order fault and not decided here)
@@ -521,7 +548,7 @@ def o4_status_folding(chk: Check) -> None:
                 if is_within(expr, h):
                     cut += [(tid, m, lbl) for m, lbl in g.nodes[tid].succ if lbl == "true"]
                     retry_guard = True
-        states = propagate(g, "suite_status", entry, {"SUCCESS"}, classify,
+        states = propagate(g, suite_status, entry, {"SUCCESS"}, classify,
                            edge_ok=lambda a, b, lbl: (a, b, lbl) not in cut, stop=fin_nodes)
         vals: set[str] = set()
         for f in fin_nodes:
@@ -695,7 +722,8 @@ def o8_statistic_accumulates(chk: Check) -> None:
         else:
             chk.undecided("C05.O8", fn, construct, "stored value is not a local", fn.loc(st))
     # each new unique failure is put into that mapping keyed by case id
-    adds = [n for n in walk_body(fn.node) if isinstance(n, ast.Assign) and any(isinstance(t, ast.Subscript) and dotted(t.value) == "failures" for t in n.targets)]
+    stored_vars = {st.value.id for st in stores if isinstance(st.value, ast.Name)}
+    adds = [n for n in walk_body(fn.node) if isinstance(n, ast.Assign) and any(isinstance(t, ast.Subscript) and dotted(t.value) in stored_vars for t in n.targets)]
     chk.decide(bool(adds) and any("GroupedFailures" in unparse(a.value, 300) and "code_sample" in unparse(a.value, 300) for a in adds), "C05.O8", fn, "failures[case_id] = GroupedFailures(code_sample=..., failures=...)", "new failures are not stored together with the request that caused them", fn.loc())
     oe = P.func("cli/commands/run/context.py:ExecutionContext.on_event")
     chk.decide(any(last_attr(c) == "on_scenario_finished" and unparse(c.args[0]) == "event.recorder" for c in body_calls(oe) if c.args), "C05.O8", oe, "every ScenarioFinished feeds the statistic", "finished scenarios are not folded into the statistic", oe.loc())
